@@ -171,6 +171,9 @@ pub struct GenSpec {
     /// redundant equality constraints between cells that are already tied (same copy class)
     #[serde(default)]
     pub n_redundant_copies: usize,
+    /// triangles a=b, b=c, a=c issued as equal(b,c), equal(a,b) [fresh cell on the left], equal(a,c)
+    #[serde(default)]
+    pub n_triangles: usize,
     pub n_inst_expose: usize,
     pub n_inst_load: usize,
     pub n_const_cells: usize,
@@ -200,6 +203,7 @@ impl Default for GenSpec {
             constants: false,
             n_copies: 0,
             n_redundant_copies: 0,
+            n_triangles: 0,
             n_inst_expose: 0,
             n_inst_load: 0,
             n_const_cells: 0,
@@ -279,6 +283,8 @@ pub enum Src {
     FromInstance(usize, usize),
     /// copy of another advice cell (`constrain_equal`)
     CopyOf(Cell),
+    /// same value as another advice cell, no constraint issued by this step
+    CopyVal(Cell),
     /// column j of row `table_row` of lookup `lookup`'s table
     TableVal { lookup: usize, table_row: usize, j: usize },
     /// assigned, read by nothing
@@ -291,6 +297,8 @@ pub enum Src {
 pub enum Step {
     Input { cell: Cell, src: Src },
     Gate { gate: usize, con: usize, row: usize },
+    /// `constrain_equal(left, right)` issued at this point of the synthesis
+    Equal(Cell, Cell),
 }
 
 #[derive(Clone, Debug, PartialEq, Eq)]
@@ -543,6 +551,34 @@ impl Plan {
                 });
             }
         }
+        // triangles
+        for _ in 0..spec.n_triangles {
+            let cols: Vec<usize> = eq_cols.clone();
+            let (Some(b), Some(c), Some(a)) = (
+                free_cell(&mut rng, &assigned, &cols),
+                free_cell(&mut rng, &assigned, &cols),
+                free_cell(&mut rng, &assigned, &cols),
+            ) else {
+                break;
+            };
+            if a == b || b == c || a == c {
+                continue;
+            }
+            // all three in the phase of b or later is required for value propagation
+            let pb = spec.advice[b.0].phase;
+            if spec.advice[a.0].phase < pb || spec.advice[c.0].phase < pb {
+                continue;
+            }
+            for x in [a, b, c] {
+                assigned.insert(x);
+            }
+            plan.steps.push(Step::Input { cell: b, src: Src::Rand });
+            plan.steps.push(Step::Input { cell: c, src: Src::CopyVal(b) });
+            plan.steps.push(Step::Equal(b, c));
+            plan.steps.push(Step::Input { cell: a, src: Src::CopyVal(b) });
+            plan.steps.push(Step::Equal(a, b));
+            plan.steps.push(Step::Equal(a, c));
+        }
         // redundant equalities inside existing copy classes (chains A←B←C … plus A==C)
         {
             let mut class_of: BTreeMap<Cell, Cell> = BTreeMap::new();
@@ -744,7 +780,7 @@ pub fn compute_witness<F: PrimeField + FromUniformBytes<64>>(
                     Src::Rand | Src::Junk => Value::known(sample_input::<F>(&mut rng)),
                     Src::Const(c) => Value::known(small::<F>(*c)),
                     Src::FromInstance(c, r) => Value::known(instance[*c][*r]),
-                    Src::CopyOf(a) => adv.get(a).copied().unwrap_or(Value::known(F::ZERO)),
+                    Src::CopyOf(a) | Src::CopyVal(a) => adv.get(a).copied().unwrap_or(Value::known(F::ZERO)),
                     Src::TableVal { lookup, table_row, j } | Src::TableCell { lookup, table_row, j } => {
                         Value::known(small::<F>(plan.tables[*lookup][*table_row][*j]))
                     }
@@ -756,6 +792,7 @@ pub fn compute_witness<F: PrimeField + FromUniformBytes<64>>(
                 let v = eval_g(&c.g, *row, &adv, &plan.fixed_vals, &instance, chal);
                 adv.insert((c.out.0, at(*row, c.out.1)), v);
             }
+            Step::Equal(..) => {}
         }
     }
     for (ic, col) in plan.inst.iter().enumerate() {
@@ -1219,6 +1256,11 @@ impl<F: PrimeField + FromUniformBytes<64>> Circuit<F> for GenCircuit {
                             let ac = region.assign_advice(|| "o", cfg.advice[cell.0], cell.1, || val(&cell))?;
                             cells.insert(cell, ac.cell());
                         }
+                        Step::Equal(l, r) => {
+                            if let (Some(cl), Some(cr)) = (cells.get(l), cells.get(r)) {
+                                region.constrain_equal(*cl, *cr)?;
+                            }
+                        }
                     }
                 }
                 for (a, b) in &plan.extra_equal {
@@ -1475,6 +1517,7 @@ pub fn gen_spec<F: PrimeField + FromUniformBytes<64>>(
     if knobs.copies {
         spec.n_copies = rng.gen_range(1..=8);
         spec.n_redundant_copies = rng.gen_range(0..=4);
+        spec.n_triangles = rng.gen_range(0..=2);
         spec.n_inst_expose = rng.gen_range(0..=3);
         spec.n_inst_load = rng.gen_range(0..=3);
         spec.n_const_cells = if knobs.constants { rng.gen_range(1..=3) } else { 0 };
